@@ -21,7 +21,7 @@ def run(ctx):
         viol += p["violations"]
         samples += p["samples"]
     ctx.log("c18cap: %s max accesses %d" % (cap, mx))
-    cov, sviol, ssamples = shm.run_sched(ctx, b, "C18", 8000 if q else 400000)
+    cov, sviol, ssamples = shm.run_sched(ctx, b, "C18", 8000 if q else 100000)
     ctx.log("sched: %d scenarios, odd-entry calls %d, max accesses %d" % (cov["scenarios"], cov["odd_entry_calls"], cov["max_accesses_per_call"]))
     viol += sviol
     inconclusive = None
